@@ -23,15 +23,13 @@ func (identification *IdentificationInitiator) Marshal() ([]byte, error) {
 }
 
 func (identification *IdentificationInitiator) Unmarshal(b []byte) error {
-	if len(b) > 0 {
-		// bounds checking
-		if len(b) <= 4 {
-			return errors.Errorf("Identification: No sufficient bytes to decode next identification")
-		}
-
-		identification.IDType = b[0]
-		identification.IDData = append(identification.IDData, b[4:]...)
+	// bounds checking
+	if len(b) <= 4 {
+		return errors.Errorf("Identification: No sufficient bytes to decode next identification")
 	}
+
+	identification.IDType = b[0]
+	identification.IDData = append(identification.IDData, b[4:]...)
 
 	return nil
 }
